@@ -373,7 +373,7 @@ Proof.
   - destruct (allocate o st rq) as [p|] eqn:E; cbn [fst]; [|exact Hinv].
     apply update_inv; [exact Hinv|]. apply (allocate_wf o st rq p HT Hx E).
   - cbn [fst]. apply release_inv. exact Hinv.
-  - cbn [fst]. apply update_inv; assumption.
+  - cbn [fst]. destruct (palloc_empty p); [exact Hinv|]. apply update_inv; assumption.
   - destruct (allocate o st rq) as [p|] eqn:E; cbn [fst]; [|exact Hinv].
     apply update_inv; [|apply (allocate_wf o st rq p HT Hx E)].
     destruct victim; cbn [release_opt]; [apply release_inv|]; exact Hinv.
